@@ -181,7 +181,15 @@ func c02r2(c *RC) {
 					}
 					t := strings.ReplaceAll(nodeSrc0(pr, cond), " ", "")
 					isMatch := strings.Contains(t, "errors.Match(fatalErr,"+o.name+")")
-					isCtx := strings.Contains(t, "ctx.Err()!=nil")
+					isCtx := false
+					ast.Inspect(cond, func(m ast.Node) bool {
+						if be, ok := m.(*ast.BinaryExpr); ok && be.Op == token.NEQ && expr(be.Y) == "nil" {
+							if k, ok := be.X.(*ast.CallExpr); ok && fn.Pkg.CalleeName(k) == "context.Context.Err" {
+								isCtx = true
+							}
+						}
+						return true
+					})
 					if (isMatch || isCtx) && !strings.HasPrefix(t, "!") {
 						if from.Succs[0] == to {
 							return "fatal", false
@@ -353,8 +361,10 @@ func c02r3(c *RC) {
 		ast.Inspect(rd.Body, func(nd ast.Node) bool {
 			if ifs, isIf := nd.(*ast.IfStmt); isIf && strings.HasSuffix(expr(ifs.Cond), ".ReviseSeverity") {
 				for _, st := range ifs.Body.List {
-					if a, isA := st.(*ast.AssignStmt); isA && expr(a.Lhs[0]) == "err" && strings.ReplaceAll(expr(a.Rhs[0]), " ", "") == "reviseSeverity(err)" {
-						ok = true
+					if a, isA := st.(*ast.AssignStmt); isA && len(a.Rhs) == 1 {
+						if k, isC := a.Rhs[0].(*ast.CallExpr); isC && rd.Pkg.CalleeName(k) == "exec.reviseSeverity" && len(k.Args) == 1 && expr(k.Args[0]) == expr(a.Lhs[0]) {
+							ok = true
+						}
 					}
 				}
 			}
@@ -364,11 +374,40 @@ func c02r3(c *RC) {
 	}
 	// reviseSeverity: maybeTaskFatalErr unwraps (stays fatal); other fatal *errors.Error downgraded
 	if rv := c.MustFn("exec.reviseSeverity"); rv != nil {
-		src := strings.ReplaceAll(nodeSrc0(pr, rv.Body), " ", "")
-		unwrap := strings.Contains(src, "err.(maybeTaskFatalErr)") && strings.Contains(src, "returne.error")
-		down := strings.Contains(src, "e.Severity==errors.Fatal") && strings.Contains(src, "e.Severity=errors.Unknown")
-		iu, id := strings.Index(src, "err.(maybeTaskFatalErr)"), strings.Index(src, "e.Severity==errors.Fatal")
-		c.Check(unwrap && down && iu >= 0 && id > iu, rv.QName()+"|downgrades-unless-task-fatal", pr.Pos(rv.Body.Pos()), "reviseSeverity no longer first unwraps errors marked task-fatal and then downgrades every other fatal error to a retryable one")
+		// (1) an assertion to maybeTaskFatalErr whose success returns the wrapped error unchanged;
+		// (2) afterwards: under `<e>.Severity == errors.Fatal` the severity is set to errors.Unknown
+		unwrapPos, downPos := token.NoPos, token.NoPos
+		ast.Inspect(rv.Body, func(n ast.Node) bool {
+			ifs, ok := n.(*ast.IfStmt)
+			if !ok {
+				return true
+			}
+			isUnwrap := false
+			if ifs.Init != nil {
+				ast.Inspect(ifs.Init, func(m ast.Node) bool {
+					if ta, ok := m.(*ast.TypeAssertExpr); ok && ta.Type != nil && expr(ta.Type) == "maybeTaskFatalErr" {
+						isUnwrap = true
+					}
+					return true
+				})
+			}
+			if isUnwrap {
+				for _, st := range ifs.Body.List {
+					if r, ok := st.(*ast.ReturnStmt); ok && len(r.Results) == 1 && strings.HasSuffix(expr(r.Results[0]), ".error") {
+						unwrapPos = ifs.Pos()
+					}
+				}
+			}
+			if strings.Contains(strings.ReplaceAll(expr(ifs.Cond), " ", ""), ".Severity==errors.Fatal") {
+				for _, st := range ifs.Body.List {
+					if a, ok := st.(*ast.AssignStmt); ok && strings.HasSuffix(expr(a.Lhs[0]), ".Severity") && expr(a.Rhs[0]) == "errors.Unknown" {
+						downPos = ifs.Pos()
+					}
+				}
+			}
+			return true
+		})
+		c.Check(unwrapPos.IsValid() && downPos.IsValid() && unwrapPos < downPos, rv.QName()+"|downgrades-unless-task-fatal", pr.Pos(rv.Body.Pos()), "reviseSeverity no longer first unwraps errors marked task-fatal and then downgrades every other fatal error to a retryable one")
 	}
 	// worker.Run wraps errors of user code as maybeTaskFatalErr and applies reviseSeverity in its epilogue
 	if w := pr.Fn("exec.(*worker).Run"); w != nil {
@@ -583,15 +622,19 @@ func c02r5(c *RC) {
 	// the offset is passed through
 	okOff := false
 	if len(read.Args) >= 3 {
-		okOff = strings.Contains(nodeSrc0(pr, read.Args[2]), "offset}") || strings.Contains(nodeSrc0(pr, read.Args[2]), "offset,") || strings.Contains(nodeSrc0(pr, read.Args[2]), "Offset: offset")
+		_, offP := paramNames(fn)
+		okOff = c02mentions(read.Args[2], offP)
 	}
 	c.Check(okOff, fq+"|reopens-at-requested-offset", pr.Pos(read.Pos()), "the reopened read does not start at the requested offset")
 	// same for the worker-side opener
 	if m := c.MustFn("exec.machineTaskPartition.OpenAt"); m != nil {
 		ok := false
 		for _, k := range callsIn(m.Body) {
-			if strings.HasSuffix(m.Pkg.CalleeName(k), "Machine).RetryCall") && len(k.Args) >= 3 && strings.Contains(nodeSrc0(pr, k.Args[2]), "offset}") {
-				ok = true
+			if strings.HasSuffix(m.Pkg.CalleeName(k), "Machine).RetryCall") && len(k.Args) >= 3 {
+				_, offP := paramNames(m)
+				if c02mentions(k.Args[2], offP) {
+					ok = true
+				}
 			}
 		}
 		c.Check(ok, m.QName()+"|reopens-at-requested-offset", pr.Pos(m.Body.Pos()), "the worker-side reopen does not pass the requested offset")
@@ -609,3 +652,16 @@ func c02r5(c *RC) {
 }
 
 var _ = token.ADD
+
+// c02mentions: the composite literal (or expression) e uses identifier name as
+// one of its element values.
+func c02mentions(e ast.Expr, name string) bool {
+	found := false
+	ast.Inspect(e, func(n ast.Node) bool {
+		if id, ok := n.(*ast.Ident); ok && id.Name == name {
+			found = true
+		}
+		return true
+	})
+	return found
+}
